@@ -713,6 +713,9 @@ fn run(case: &Case, dir: &str) -> Verdict {
         "C09" => &["sh-serial", "sh-lost-update", "sh-deadlock", "sh-liveness", "sh-panic", "sh-reader", "sh-writer"],
         _ => &["sh-exclusive", "sh-open", "sh-deadlock", "sh-liveness", "sh-panic"],
     };
+    if violation.is_none() {
+        v.extra_out = json!({"params": p.to_json(), "scheduler": kind, "decisions": steps.len(), "first_decisions": steps.iter().take(48).collect::<Vec<_>>()});
+    }
     if let Some(x) = violation {
         v.extra_out = json!({"params": p.to_json(), "sched": {"kind": "list", "list": steps}});
         if mine.contains(&x.oracle.as_str()) {
